@@ -150,7 +150,7 @@ func c07PanickingCallback(r *Run) {
 			}
 			v := *(*row)(val)
 			if v.P != nil {
-				p := *v.P
+				p := string(append([]byte{}, *v.P...)) // the text, not a view of the bank's string store
 				v.P = &p
 			}
 			v.S = string(append([]byte{}, v.S...))
@@ -185,7 +185,7 @@ func c07PanickingCallback(r *Run) {
 			continue
 		}
 		if d := same(got, wa[:k]); d >= 0 {
-			r.Fail(-1, "valid-records", fmt.Sprintf("records delivered before the callback panicked differ from the file at %d", d), desc)
+			r.Fail(-1, "valid-records", fmt.Sprintf("records delivered before the callback panicked differ from the file at %d (%d delivered, panic at %d): %+v vs %+v", d, len(got), k, got[min(d, len(got)-1)], wa[d]), desc)
 		}
 		for step, f := range []struct {
 			file []byte
